@@ -1,12 +1,12 @@
 (* C01 tie: the byte-code the REAL parser emitted (K2 dumps) satisfies the hypotheses of the no-panic
-   theorem: code_wf, spans_wf against the source text, ftab_wf. *)
+   theorem: code_wf, ftab_wf (the spans hypothesis is gone: push.def_expr no longer slices outside the text). *)
 From Coq Require Import NArith ZArith List Bool String.
 From DS Require Import Model.Value Model.VM Model.CodeWf Corr.CorrK2.
 Import ListNotations.
 
 Definition c01_wf (c : k2_case) : bool :=
   let '(ft, _, _, steps) := c in
-  ftab_wf ft && forallb (fun st : k2_step => let '(cd, src, _) := st in code_wf cd && spans_wf (Some src) cd) steps.
+  ftab_wf ft && forallb (fun st : k2_step => let '(cd, _, _) := st in code_wf cd) steps.
 
 Fixpoint bad_wf (i : N) (l : list k2_case) : list N :=
   match l with [] => [] | c :: r => if c01_wf c then bad_wf (i + 1)%N r else i :: bad_wf (i + 1)%N r end.
